@@ -8,7 +8,7 @@ pub const TEXTS: &[&str] = &[
     "x", " ", "\n ", "a b", "&amp;", "&lt;", "]]>", ">", "/>", "-->", "?>", "'", "\"", "t e x t", "\u{e9}",
     " x ", "&#x41;", "&unknown;", "&", "\t", "]", "-", "?", "x\ny", "=",
 ];
-pub const ATTR_KEYS: &[&str] = &["k", "id", "p:k", "xml:lang", "k2", "a"];
+pub const ATTR_KEYS: &[&str] = &["k", "id", "p:k", "xml:lang", "k2", "a", "xml", "x"];
 pub const ATTR_VALS: &[&str] = &[
     "", "v", ">", "/>", "a>b", "--", "]]>", "?>", "&amp;", " x ", "<", "</a>", "=", "&#65;", "\u{e9}", "/",
 ];
@@ -72,10 +72,12 @@ pub fn gen_attrs(rng: &mut Rng, ns: bool) -> (String, Vec<(String, String)>) {
     let n = if rng.chance(1, 2) { 0 } else { rng.range(1, 3) };
     for _ in 0..n {
         let (k, v) = if ns && rng.chance(2, 3) {
-            let k = match rng.below(8) {
+            let k = match rng.below(9) {
                 0 | 1 => "xmlns".to_string(),
                 2 => "xmlns:q".to_string(),
                 3 => "xmlns:r".to_string(),
+                // a prefix that begins with another prefix of the pool
+                4 => "xmlns:pq".to_string(),
                 _ => "xmlns:p".to_string(),
             };
             let v = if rng.chance(1, 5) { "" } else { *rng.pick(NS_URIS) };
@@ -89,7 +91,7 @@ pub fn gen_attrs(rng: &mut Rng, ns: bool) -> (String, Vec<(String, String)>) {
             )
         } else if ns && rng.chance(1, 4) {
             // xsi:nil look-alikes: whether they count depends on what the prefix resolves to
-            (rng.pick(&["p:nil", "q:nil", "r:nil", "nil", "p:nill"]).to_string(), rng.pick(&["true", "1", "false", "0", "x", " true", ""]).to_string())
+            (rng.pick(&["p:nil", "q:nil", "r:nil", "nil", "p:nill", "pq:nil", "xmlx:nil"]).to_string(), rng.pick(&["true", "1", "false", "0", "x", " true", ""]).to_string())
         } else {
             (rng.pick(ATTR_KEYS).to_string(), rng.pick(ATTR_VALS).to_string())
         };
@@ -112,7 +114,7 @@ pub fn gen_attrs(rng: &mut Rng, ns: bool) -> (String, Vec<(String, String)>) {
 }
 
 pub const NS_URIS: &[&str] = &["u1", "u2", "urn:x", "http://www.w3.org/2001/XMLSchema-instance"];
-pub const NS_NAMES: &[&str] = &["a", "b", "p:a", "p:b", "q:a", "r:c", "c", "q:c"];
+pub const NS_NAMES: &[&str] = &["a", "b", "p:a", "p:b", "q:a", "r:c", "c", "q:c", "pq:a", "pq:c"];
 
 pub fn tok_start(rng: &mut Rng, name: &str, ns: bool) -> Tok {
     let (araw, attrs) = gen_attrs(rng, ns);
@@ -473,6 +475,7 @@ pub fn gen_stream(rng: &mut Rng, doc: &[u8], allow_async: bool) -> (Stream, &'st
         grow: rng.chance(1, 5),
         faults: vec![],
         eof_at: None,
+        revive: false,
     };
     if kind.is_async() && rng.chance(2, 3) {
         // pending patterns: before a few refill calls
